@@ -88,6 +88,8 @@ fn real_main() -> i32 {
             for e in sverif::ub::make_corpus(seed.wrapping_add(1), n1, true, native) { lines.push(e.to_string()); }
             let n2: usize = args.get(6).and_then(|s| s.parse().ok()).unwrap_or(0);
             for e in sverif::ub::make_cut_under_corpus(seed.wrapping_add(2), n2, native) { lines.push(e.to_string()); }
+            let n3: usize = args.get(7).and_then(|s| s.parse().ok()).unwrap_or(0);
+            for e in sverif::ub::make_list_builtin_corpus(seed.wrapping_add(3), n3, native) { lines.push(e.to_string()); }
             if std::fs::write(&args[2], lines.join("\n") + "\n").is_err() { eprintln!("cannot write {}", args[2]); return 3; }
             println!("{}", lines.len());
             0
